@@ -3,6 +3,8 @@
 package main
 
 import (
+	"crypto/sha1"
+	"encoding/base64"
 	"bufio"
 	"context"
 	"fmt"
@@ -66,6 +68,15 @@ func verifStartFaultyBackend() (addr string, stop func()) {
 						return
 					case strings.HasPrefix(p, "/huge-header"):
 						fmt.Fprintf(c, "HTTP/1.1 200 OK\r\nX-Huge: %s\r\nContent-Length: 0\r\n\r\n", strings.Repeat("h", 2<<20))
+					case strings.HasPrefix(p, "/ws-send-close"):
+						// a websocket backend that sends one message and hangs up at once
+						key := req.Header.Get("Sec-WebSocket-Key")
+						h := sha1.Sum([]byte(key + "258EAFA5-E914-47DA-95CA-C5AB0DC85B11"))
+						fmt.Fprintf(c, "HTTP/1.1 101 Switching Protocols\r\nUpgrade: websocket\r\nConnection: Upgrade\r\nSec-WebSocket-Accept: %s\r\n\r\n", base64.StdEncoding.EncodeToString(h[:]))
+						c.Write([]byte{0x81, 3, 'b', 'y', 'e'})
+						c.Write([]byte{0x88, 0})
+						time.Sleep(50 * time.Millisecond)
+						return
 					case strings.HasPrefix(p, "/slow"):
 						time.Sleep(300 * time.Millisecond)
 						fmt.Fprintf(c, "HTTP/1.1 200 OK\r\nContent-Length: 2\r\n\r\nok")
@@ -106,7 +117,7 @@ func TestVerifC07(t *testing.T) {
 	for _, k := range []string{"500-x3", "neterr-x3", "500-then-ok"} {
 		faults = append(faults, fault{"upload", k})
 	}
-	for _, k := range []string{"open-garbage", "open-unreachable", "open-unreachable-then-use", "open-refused-then-use", "data-garbage", "data-unknown", "poll-unknown", "close-unknown", "poll-garbage"} {
+	for _, k := range []string{"open-garbage", "open-unreachable", "open-unreachable-then-use", "open-refused-then-use", "open-ws-send-close-then-use", "data-garbage", "data-unknown", "poll-unknown", "close-unknown", "poll-garbage"} {
 		faults = append(faults, fault{"shim", k})
 	}
 	configs := []string{"plain", "shim+sessions"}
@@ -185,6 +196,9 @@ func TestVerifC07(t *testing.T) {
 				case "open-unreachable", "open-unreachable-then-use":
 					handler = hpDead
 					raw = mkReq("POST", "/verifshim/open", "ws://x/ws")
+				case "open-ws-send-close-then-use":
+					// the open succeeds; the backend sends one message and closes before anything is polled
+					raw = mkReq("POST", "/verifshim/open", "ws://x/ws-send-close")
 				case "open-refused-then-use":
 					// the healthy backend answers the websocket handshake with a plain HTTP response
 					raw = mkReq("POST", "/verifshim/open", "ws://x/ok/not-a-websocket")
@@ -252,6 +266,7 @@ func TestVerifC07(t *testing.T) {
 			// a failed open followed by calls naming the session IDs it may have been given
 			followup := []int{}
 			if strings.HasSuffix(f.Kind, "-then-use") {
+				time.Sleep(200 * time.Millisecond)
 				fpG := newVerifFakeProxy()
 				var gids []string
 				for n := 1; n <= 40; n++ {
